@@ -123,7 +123,7 @@ var serveFamilies = []*serveFamily{
 	{name: "errors", rules: []string{"C01|R2a", "C01|R2b"}, mask: evReadLoopPending | evErrResp, readers: true},
 	{name: "body", rules: []string{"C02|R1a", "C02|R1b", "C02|R2"}, mask: evMayCont | evContRead | evRespClose | evHandler | evStreamChecked | evWrote | evCtxSwapped | evTAStale0 | evTAStale0<<1 | evTAStale0<<2 | evTAStale0<<3},
 	{name: "close", rules: []string{"C10|R2a", "C10|R2b", "C10|R2c"}, mask: evRespClose | evNotHTTP11 | evKeepAliveHdr},
-	{name: "carried", rules: []string{"C11|R-loop", "C11|R-reset"}, mask: evHandler | evReqReset | evRespReset, carried: true},
+	{name: "carried", rules: []string{"C11|R-loop", "C11|R-reset", "C07|R-default", "C35|R-reset"}, mask: evHandler | evReqReset | evRespReset, carried: true},
 	{name: "connstate", rules: []string{"C14|R1", "C14|R2"}, mask: evByteOK | evHandler, state: true},
 	{name: "shutdown", rules: []string{"C15|R3", "C15|R4"}, mask: evHandler | evWrote | evStopChecked | evIdleZero | evIdleMarked},
 	{name: "timeout", rules: []string{"C16|R1", "C16|R2", "C16|R3", "C16|R5", "C10|R3"}, mask: evTimeoutT | evFreshCtx | evCopied | evHandler | evCtxSwapped | evTimeoutKnown},
@@ -782,6 +782,8 @@ func (p *Prog) serveLoop(prop string) *serveResult {
 						"the connection goes back to waiting without its idle timestamp being set, so Shutdown cannot close it as idle")
 					check("C11|R-reset|request and response are reset before the next request", st.Has(evReqReset) && st.Has(evRespReset), st, hcall.Pos(),
 						"a path from the handler to the next iteration does not pass both Request.Reset and Response.Reset")
+					check("C35|R-reset|the request (and with it a parsed multipart form) is reset before the next request", st.Has(evReqReset), st, hcall.Pos(),
+						"a path from the handler to the next iteration does not pass Request.Reset: temporary files of a parsed form survive into the next request")
 					check("C14|R1|iteration ends in StateIdle", stateOf(st) == 2, st, hcall.Pos(), "next request awaited while the reported state is not Idle")
 				}
 				if st.Has(evCtxSwapped) {
@@ -989,6 +991,10 @@ func (p *Prog) serveLoop(prop string) *serveResult {
 								"the value of '"+cv.name+"' computed while serving an earlier request is read while serving a later one")
 						} else if cv.bit != 0 {
 							check("C11|R-loop|per-request variable "+cv.name+" is re-assigned before it is read in a later iteration", true, st, in.Pos(), "")
+						}
+						if cv.bit != 0 && strings.Contains(strings.ToLower(cv.name), "bodysize") {
+							check("C07|R-default|the body limit used for a request is the override, the server limit or the default of that request, never a value set for an earlier request", !st.Has(cv.bit), st, in.Pos(),
+								"the limit variable '"+cv.name+"' still holds the value chosen while serving an earlier request on this connection")
 						}
 						break
 					}
